@@ -1,6 +1,8 @@
 package props
 
 import (
+	"github.com/uhn/ggql/pkg/ggql"
+
 	"fmt"
 	"time"
 
@@ -125,7 +127,50 @@ func runC01(c *core.Ctx) {
 						o := world.Observe(root, run, text, op, vars)
 						kind, msg := compareExpect(s, g, ex, o, nc.Cfg.Strat, true)
 						if kind == "" {
-							c.Outcome("agree")
+							// the same root answers the same request the same way again: a second ResolveString, then one parsed
+							// executable resolved twice (whatever a request leaves behind in the root, the data or the parsed
+							// request must not show)
+							again := func(label string, o2 *world.Obs) bool {
+								if k2, m2 := compareExpect(s, g, ex, o2, nc.Cfg.Strat, true); k2 != "" {
+									c.Outcome("repeat-" + k2)
+									a2 := map[string]string{"strategy": nc.Cfg.Strat.String(), "model": "none", "repeat": label}
+									if k2 == "panic" {
+										a2["site"], a2["class"] = o2.Panic.Site, o2.Panic.Class
+									}
+									c.Violation(k2, a2, worldCase{Config: nc.Name, Graph: gi, Query: text, Op: op, Vars: vars,
+										Expected: map[string]interface{}{"rejected": ex.Rejected, "data": ex.Data, "err_paths": ex.ErrPaths}, Observed: o2, Diff: label + ": " + m2})
+									return false
+								}
+								return true
+							}
+							run.Log, run.Args = nil, nil
+							ok := again("second ResolveString on the same root", world.Observe(root, run, text, op, vars))
+							if ok && dist == 0 {
+								var exe *ggql.Executable
+								var perr error
+								if pi := core.Safe(func() { exe, perr = root.ParseExecutableString(text) }); pi == nil && perr == nil {
+									for round := 1; round <= 2 && ok; round++ {
+										run.Log, run.Args = nil, nil
+										o3 := &world.Obs{}
+										var res map[string]interface{}
+										var rerr error
+										o3.Panic = core.Safe(func() { res, rerr = root.ResolveExecutable(exe, op, vars) })
+										if o3.Panic == nil {
+											if res == nil {
+												res = map[string]interface{}{"data": nil}
+											}
+											if rerr != nil {
+												res["errors"] = ggql.FormErrorsResult(rerr)
+											}
+											o3.FillFrom(res, run)
+										}
+										ok = again(fmt.Sprintf("resolution %d of one parsed executable on the same root", round), o3)
+									}
+								}
+							}
+							if ok {
+								c.Outcome("agree")
+							}
 							continue
 						}
 						c.Outcome(kind)
